@@ -21,7 +21,7 @@ from pyvc.harness import Raised, Registry, Skip
 from specs import cyc, gates
 
 from .c04 import _install
-from .exec_common import BANKS, new_executor
+from .exec_common import run_bounded, BANKS, new_executor
 
 LEVEL = "proof"
 TECHNIQUE = ("contract-based deductive verification (translation validation): vanilla program vs. its real NV transpilation executed on the real executor with symbolic data; "
@@ -288,12 +288,7 @@ def _run(ctx, sub, outcomes):
     # every virtual qubit exists (the transpiler's contract is about gates; allocation is C09's subject)
     ex._qubit_unit_modules[0] = [10, 11, 12, 13]
     ex._used_physical_qubit_addresses = {10, 11, 12, 13}
-    try:
-        gen = ctx.call(ex.execute_subroutine, sub)
-        ctx.call(list, gen)
-    except Raised as r:
-        return ex, r.e
-    return ex, None
+    return ex, run_bounded(ctx, ex, sub)
 
 
 def build():
